@@ -20,9 +20,25 @@ Fixpoint bits_of (w : nat) (z : Z) : list bool :=
   match w with O => [] | S w' => Z.odd z :: bits_of w' (Z.div2 z) end.
 Fixpoint mask_of (l : list bool) : Z :=
   match l with [] => 0 | b :: r => (if b then 1 else 0) + 2 * mask_of r end.
-(* integer rows: base 65536 digits *)
+(* integer rows: base 256 digits (velocities <= 255, weight codes <= number of rows <= 255 in every generated case) *)
 Fixpoint digits_of (l : list Z) : Z :=
-  match l with [] => 0 | v :: r => v + 65536 * digits_of r end.
+  match l with [] => 0 | v :: r => v + 256 * digits_of r end.
+
+(* Printing a 53-bit number costs ~1.5 ms in coqc, so the float times of decoded notes are
+   compared through an order-sensitive polynomial fingerprint of their exact bit patterns
+   (mod the Mersenne prime 2^89 - 1); the harness computes the same fingerprint of the
+   implementation's floats. *)
+Definition fcode (x : flt) : Z :=
+  match Prim2SF x with
+  | S754_zero _ => 2048
+  | S754_finite s m e => (if s then - Z.pos m else Z.pos m) * 4096 + (e + 2048)
+  | _ => -1
+  end.
+Definition fp_step (h : Z) (x : flt) : Z := (h * 1000003 + fcode x) mod 618970019642690137449562111.
+Definition fp_notes (tot : flt) (notes : list dnote) : Z :=
+  fold_left (fun h d => fp_step (fp_step h (d_start d)) (d_end d)) notes (fp_step 1 tot).
+Definition oNotes (tot : flt) (notes : list dnote) : sx :=
+  L [I (fp_notes tot notes); L (map (fun d => I (d_pitch d)) notes)].
 
 Definition xMat (w : nat) (s : sx) : list (list bool) := map (fun r => bits_of w (xZ r)) (xL s).
 Definition oMat (m : list (list bool)) : sx := L (map (fun r => I (mask_of r)) m).
@@ -61,19 +77,16 @@ Definition run (s : sx) : sx :=
       let w := xN (a 4%nat) in
       let '(tot, notes) := p2s (xF (a 1%nat)) (xF (a 2%nat)) (xZ (a 3%nat))
                                (xMat w (a 5%nat)) (xOptMat w (a 6%nat)) (xOptMat w (a 7%nat)) in
-      L [oF tot; L (map oDNote notes)]
+      oNotes tot notes
   | 3 => (* pianoroll_onsets_to_note_sequence: fps dur min_midi_pitch width onsets *)
       let w := xN (a 4%nat) in
       let '(tot, notes) := onsets2s (xF (a 1%nat)) (xF (a 2%nat)) (xZ (a 3%nat)) (xMat w (a 5%nat)) in
-      L [oF tot; L (map oDNote notes)]
+      oNotes tot notes
   | 4 => (* grid round trip: fps min_pitch width frames -> (rows, active roll, inexact boundary frames) *)
       let w := xN (a 3%nat) in
       let fps := xF (a 1%nat) in
       let m := grid_roundtrip fps (xZ (a 2%nat)) (xMat w (a 4%nat)) in
       L [I (Z.of_nat (length m)); oMat m;
          oZs (filter (fun i => negb (frame_exact fps i)) (map Z.of_nat (seq 0 (S (length (xL (a 4%nat)))))))]
-  | 5 => (* frames_from_times: fps occ s e, roll_rows fps s *)
-      let '(sf, ef) := frames_from_times (xF (a 1%nat)) (xF (a 2%nat)) (xF (a 3%nat)) (xF (a 4%nat)) in
-      L [I sf; I ef]
   | _ => oErr 1
   end.
